@@ -104,6 +104,7 @@ var flowRules = map[string]flowFn{
 	"pos-distinct":      func(f *yyflow.Lang, sh map[string]*yyflow.Shape) *report.RuleResult { return f.PosDistinct(sh) },
 	"int-parse-decimal": func(f *yyflow.Lang, sh map[string]*yyflow.Shape) *report.RuleResult { return f.IntParseDecimal() },
 	"empty-list-literal": func(f *yyflow.Lang, sh map[string]*yyflow.Shape) *report.RuleResult { return f.EmptyListLiteral() },
+	"fold-span":         func(f *yyflow.Lang, sh map[string]*yyflow.Shape) *report.RuleResult { return f.FoldSpan() },
 	"assert-safe":       func(f *yyflow.Lang, sh map[string]*yyflow.Shape) *report.RuleResult { return f.AssertSafe(sh) },
 }
 
